@@ -212,6 +212,7 @@ func (fr *Frame) execInstr(in ssa.Instruction) bool {
 		T := x.Type().Underlying().(*types.Pointer).Elem()
 		r := e.newRef(fr.st, x.Name())
 		e.zeroInit(fr.st, r, T)
+		e.zeroGhosts(fr, r, T)
 		if !x.Heap || nonEscaping(x, 0) {
 			if st := structOf(T); st != nil {
 				var keys []string
@@ -1056,5 +1057,27 @@ func (e *Exec) assumeRefsOld(v Val, pc, alloc string) {
 				e.assumeRefsOld(f, pc, alloc)
 			}
 		}
+	}
+}
+
+// zeroGhosts: ghost fields declared for the type of a freshly allocated object start at their
+// zero value (a new strings.Builder is empty, a new counter is 0).
+func (e *Exec) zeroGhosts(fr *Frame, ref string, T types.Type) {
+	n, ok := T.(*types.Named)
+	if !ok {
+		return
+	}
+	for name, g := range e.L.specs.Ghosts {
+		if g.Owner != n.Obj().Name() || strings.Contains(g.Type, "->") {
+			continue
+		}
+		GT, err := e.L.resolveType(fr.fn.Pkg.Pkg, g.Type)
+		if err != nil || kindOf(GT) != kScalar {
+			continue
+		}
+		key := "X:" + name
+		srt := arrSort(sRef, scalarSort(GT))
+		arr := e.heapGet(fr.st, key, srt)
+		e.heapSet(fr.st, key, srt, sto(arr, ref, zeroScalar(GT)))
 	}
 }
